@@ -291,14 +291,6 @@ theorem pending_only_if {a : AEAD} {s s' : NetcodeServer} {addr : Addr} {buf : B
 
 /-! ## Part 8 : every wrong request / response ends without a session -/
 
-theorem tokenOpens_unique {a : AEAD} {s : NetcodeServer} {expire : Nat} {xnonce data : Bytes}
-    {t t' : PrivateConnectToken} (h : TokenOpens a s expire xnonce data t) (h' : TokenOpens a s expire xnonce data t') :
-    t = t' := by
-  obtain ⟨p, h1, h2⟩ := h
-  obtain ⟨p', h1', h2'⟩ := h'
-  rw [h1] at h1'; cases h1'
-  rw [h2] at h2'; cases h2'; rfl
-
 /-- a request that is not `Accepted` changes nothing: `handle_connection_request` returns `Ok(None)` or an error,
     with the server state as it was -/
 theorem hcr_rejects {a : AEAD} {s : NetcodeServer} {addr : Addr} {v : Bytes} {pid expire : Nat} {xnonce data : Bytes}
@@ -579,6 +571,153 @@ theorem binding_lost_when_full {s : NetcodeServer} (hi : ServerInv s) {ne : Conn
             ⟨s.currentTime, addr', e_old.mac⟩ with ⟨e, he, hm, _⟩ | ⟨_, k', h'⟩
         · exact absurd hm (hgone e he)
         · rw [h']
+
+/-! ## Part 8b : the whole story of a connection — request accepted earlier, response now -/
+
+/-- a datagram handed to `process_packet`, together with the server state it met -/
+structure Arrival where
+  s : NetcodeServer
+  addr : Addr
+  buf : Bytes
+
+def arrivalOf (s : NetcodeServer) : Op → List Arrival
+  | .packet addr buf => [⟨s, addr, buf⟩]
+  | _ => []
+
+/-- reachable states with the history of the datagrams processed so far -/
+inductive ReachH (a : AEAD) : NetcodeServer → List Arrival → Prop
+  | init {s : NetcodeServer} : EmptyServer s → ReachH a s []
+  | step {s s' : NetcodeServer} {hist : List Arrival} {op : Op} {r : ServerResult} :
+      ReachH a s hist → step a s op = some (r, s') → ReachH a s' (hist ++ arrivalOf s op)
+
+theorem ReachH.reach {a : AEAD} {s : NetcodeServer} {hist : List Arrival} (h : ReachH a s hist) :
+    ∃ log, Reach a s log := by
+  induction h with
+  | init h => exact ⟨[], .init h⟩
+  | step _ hs ih => obtain ⟨log, hl⟩ := ih; exact ⟨_, .step hl hs⟩
+
+theorem ReachH.inv {a : AEAD} {s : NetcodeServer} {hist : List Arrival} (h : ReachH a s hist) : ServerInv s := by
+  obtain ⟨log, hl⟩ := h.reach; exact hl.inv
+
+theorem pendingFind_of_mem {m : Pending} (hnd : (m.map (·.1)).Nodup) {x : Addr} {p : Connection} (h : (x, p) ∈ m) :
+    pendingFind m x = some p := by
+  induction m with
+  | nil => cases h
+  | cons q rest ih =>
+    obtain ⟨a0, c0⟩ := q
+    simp only [List.map_cons, List.nodup_cons, List.mem_map, not_exists, not_and] at hnd
+    simp only [List.mem_cons, Prod.mk.injEq] at h
+    simp only [pendingFind]
+    rcases h with ⟨rfl, rfl⟩ | h
+    · simp
+    · have : ¬ a0 = x := fun e => hnd.1 (x, p) h e.symm
+      rw [if_neg this]
+      exact ih hnd.2 h
+
+/-- every operation: a half-open session was there before (same identity) or is created by this datagram -/
+theorem step_pending {a : AEAD} {s s' : NetcodeServer} {op : Op} {r : ServerResult} (hi : ServerInv s)
+    (h : step a s op = some (r, s')) {x : Addr} {p' : Connection} (hp : pendingFind s'.pendingClients x = some p') :
+    (∃ p, pendingFind s.pendingClients x = some p ∧ ident p' = ident p) ∨
+    (∃ buf, op = .packet x buf ∧ Created a s x buf p') := by
+  cases op with
+  | packet addr buf =>
+    simp only [step] at h
+    cases hpp : s.processPacket a addr buf with
+    | ok y =>
+      rw [hpp] at h; cases h
+      rcases pending_only_if hi hpp hp with h1 | ⟨rfl, h2⟩
+      · exact Or.inl h1
+      · exact Or.inr ⟨buf, rfl, h2⟩
+    | err e => exact e.elim
+    | panic m => rw [hpp] at h; cases h
+  | update d =>
+    simp only [step] at h
+    cases hpp : s.update d with
+    | ok y =>
+      rw [hpp] at h; cases h
+      rw [update_ok hpp] at hp
+      have hm := (List.mem_filter.mp (pendingFind_mem hp)).1
+      exact Or.inl ⟨p', pendingFind_of_mem hi.pendKeys hm, rfl⟩
+    | err e => exact e.elim
+    | panic m => rw [hpp] at h; cases h
+  | updateClient id =>
+    simp only [step] at h
+    cases hpp : s.updateClient a id with
+    | ok y =>
+      rw [hpp] at h; cases h
+      cases hf : findClientSlotById s.clients id with
+      | none => rw [updateClient_absent a hf] at hpp; cases hpp; exact Or.inl ⟨p', hp, rfl⟩
+      | some i =>
+        obtain ⟨c, hc, hid, _⟩ := findSlot_some hf
+        rcases updateClient_spec a hi hf hc with ⟨_, o, e⟩ | ⟨_, e | ⟨out, _, _, e⟩⟩ | ⟨⟨m, e⟩, _⟩ <;>
+          (rw [e] at hpp; cases hpp) <;> exact Or.inl ⟨p', hp, rfl⟩
+    | err e => exact e.elim
+    | panic m => rw [hpp] at h; cases h
+  | disconnect id =>
+    simp only [step] at h
+    cases hpp : s.disconnect a id with
+    | ok y =>
+      rw [hpp] at h; cases h
+      rcases disconnect_spec a s id with ⟨_, e⟩ | ⟨i, c, o, _, _, _, e⟩ <;> (rw [e] at hpp; cases hpp) <;>
+        exact Or.inl ⟨p', hp, rfl⟩
+    | err e => exact e.elim
+    | panic m => rw [hpp] at h; cases h
+  | setMaxClients m =>
+    simp only [step, Option.some.injEq, Prod.mk.injEq] at h
+    rw [← h.2, (setMaxClients_eq s m).2.2.1] at hp
+    exact Or.inl ⟨p', hp, rfl⟩
+  | sendPayload id pl =>
+    simp only [step] at h
+    cases hpp : s.generatePayloadPacket a id pl with
+    | ok y =>
+      obtain ⟨⟨ad, out⟩, s''⟩ := y
+      rw [hpp] at h; cases h
+      obtain ⟨i, c, _, _, _, _, _, rfl⟩ := generatePayload_ok hpp
+      exact Or.inl ⟨p', hp, rfl⟩
+    | err e => rw [hpp] at h; cases h; exact Or.inl ⟨p', hp, rfl⟩
+    | panic m => rw [hpp] at h; cases h
+
+/-- **every half-open session of a reachable state is certified by an earlier arrival**: a datagram from its address
+    that was an accepted connection request for the server state it met, whose token carries the session's identity -/
+theorem ReachH.certified {a : AEAD} {s : NetcodeServer} {hist : List Arrival} (h : ReachH a s hist) {x : Addr}
+    {p : Connection} (hp : pendingFind s.pendingClients x = some p) :
+    ∃ ar ∈ hist, ar.addr = x ∧ ∃ p0, Created a ar.s x ar.buf p0 ∧ ident p = ident p0 := by
+  induction h generalizing x p with
+  | init h => rw [h.pending] at hp; cases hp
+  | @step s s' hist op r hr hs ih =>
+    rcases step_pending hr.inv hs hp with ⟨p1, hp1, hid⟩ | ⟨buf, rfl, hc⟩
+    · obtain ⟨ar, har, hax, p0, hc, hid0⟩ := ih hp1
+      exact ⟨ar, List.mem_append_left _ har, hax, p0, hc, hid.trans hid0⟩
+    · exact ⟨⟨s, x, buf⟩, List.mem_append_right _ (by simp [arrivalOf]), rfl, p, hc, rfl⟩
+
+/-- **C05, the positive half.**  If `process_packet` on a reachable server reports `ClientConnected id addr' ud` for
+    a datagram from `addr`, then `addr' = addr` and
+    * earlier, a datagram `ar.buf` from the same address `addr` reached the server (in state `ar.s`) that was a
+      connection request passing every check of `Accepted`: version and protocol id match, `now.secs < expiry`, the
+      private token opens under the server's connect key with AAD = version ‖ protocol id ‖ expiry to a token `t`,
+      (secure mode) a listed address is one of the server's public addresses, the token's MAC was not bound to
+      another address; and fewer than `max_clients` clients were connected;
+    * **the reported id and user data are exactly those sealed in that token**: `t.clientId = id`, `t.userData = ud`;
+    * the present datagram decodes under that token's client-to-server key to a `Response` whose challenge token
+      opens under this server's challenge key to exactly `(id, ud)`. -/
+theorem connected_only_after_request {a : AEAD} {s s' : NetcodeServer} {hist : List Arrival} (hr : ReachH a s hist)
+    {addr addr' : Addr} {buf ud ka : Bytes} {id : Nat}
+    (h : s.processPacket a addr buf = .ok (.clientConnected id addr' ud ka, s')) :
+    addr' = addr ∧
+    ∃ ar ∈ hist, ar.addr = addr ∧ ∃ v pid expire xnonce data t,
+      (Packet.decode a ar.buf ar.s.protocolId none none).1 = .ok (0, .connectionRequest v pid expire xnonce data) ∧
+      Accepted a ar.s addr v pid expire xnonce data t ∧ countConnected ar.s.clients < ar.s.maxClients ∧
+      t.clientId = id ∧ t.userData = ud ∧
+      ∃ sq ts td w' rk, Packet.decode a buf s.protocolId (some t.clientToServerKey) (some rk) =
+          (.ok (sq, .response ts td), some w') ∧
+        ChallengeToken.decode a td ts s.challengeKey = .ok ⟨id, ud⟩ := by
+  obtain ⟨h0, p, sq, ts, td, w', i, hpf, hid, hud, _, _, _, hdec, hct, _⟩ := connected_only_if hr.inv h
+  refine ⟨h0, ?_⟩
+  obtain ⟨ar, har, hax, p0, ⟨v, pid, expire, xnonce, data, t, hd, hacc, hlt, rfl⟩, hident⟩ := hr.certified hpf
+  simp only [ident, mkPending, Ident.mk.injEq] at hident
+  refine ⟨ar, har, hax, v, pid, expire, xnonce, data, t, hd, hacc, hlt, by rw [← hid, hident.1], by rw [← hud, hident.2.2.1],
+    sq, ts, td, w', p.replayProtection, ?_, hct⟩
+  rw [← hident.2.2.2.2.1]; exact hdec
 
 end NS
 end RenetVerif.Netcode
